@@ -17,6 +17,12 @@
 //        position p: "other" is held at its j-th statement, then the index request fails, the failing
 //        worker runs up to its p-th statement after the failure and pauses there while "other" is
 //        released and runs on (6 statements or to its end), then the worker continues.
+//   gcs <nsvc> <ncoll> <pagesize> <bufs> <idxfail> <badcoll> <pagefail> <other> <hold> <pause>
+//        one run of the real GetCurrentState (instrumented) with the index request of server <idxfail>
+//        failing ("-" = none) under the interleaving (<other>, <hold>, <pause>) as above (0 0 0 = free
+//        running), collection <badcoll> carrying a malformed manifest (addCollection fails) and the
+//        <pagefail>-th collections request answered with a 500; prints the label path of every goroutine
+//        (w=…;…|p=…|s=…), whether GetCurrentState returned an error, and the number of collections requests.
 package main
 
 import (
@@ -505,6 +511,10 @@ type verifC06Sched struct {
 	otherReleased bool
 	otherExit     bool
 	seenPoints    bool
+	record        bool
+	lit           map[int64]int   // goroutine id -> goroutine literal
+	paths         map[int64][]int // goroutine id -> labels reported (0 = exit)
+	order         []int64
 }
 
 func (c *verifC06Sched) waitFor(cond func() bool, d time.Duration) {
@@ -535,6 +545,17 @@ func (c *verifC06Sched) point(label string) {
 	c.seenPoints = true
 	if !exit {
 		c.counts[g]++
+	}
+	if c.record {
+		if _, ok := c.paths[id]; !ok {
+			c.lit[id] = g
+			c.order = append(c.order, id)
+		}
+		n := 0
+		if !exit {
+			n, _ = strconv.Atoi(label[dot+1:])
+		}
+		c.paths[id] = append(c.paths[id], n)
 	}
 	if c.victim != 0 && id == c.victim {
 		if exit {
@@ -572,7 +593,9 @@ func (c *verifC06Sched) point(label string) {
 // gate parks the failing request until "other" is held (or has ended), then marks the calling
 // goroutine as the failing worker.
 func (c *verifC06Sched) gate() {
-	c.waitFor(func() bool { return c.otherHeld || c.otherExit }, 3*time.Second)
+	if c.holdAt > 0 {
+		c.waitFor(func() bool { return c.otherHeld || c.otherExit }, 3*time.Second)
+	}
 	c.mtx.Lock()
 	c.victim = verifC06Goid()
 	c.mtx.Unlock()
@@ -591,6 +614,9 @@ type verifC06World struct {
 	failed   bool   // the injected failure has happened
 	failStep string // step of Run the failing request belongs to
 	gateHost string // gate mode: the index request of this host fails, under control of sched
+	badColl  int    // index of the collection whose manifest is malformed (-1: none)
+	pageFail int    // this collections request (0-based, null-check excluded) is answered with a 500 (-1: none)
+	collReqs int
 	sched    *verifC06Sched
 	// commit requests seen after the failure (or, without a failure, after GetCurrentState began)
 	pullsAfter, trashAfter, nonemptyAfter int
@@ -753,6 +779,11 @@ func (w *verifC06World) serve(req *http.Request) (int, string) {
 		if strings.Contains(filters, `"modified_at","=",null`) {
 			return 200, `{"items":[],"items_available":0}`
 		}
+		k := w.collReqs
+		w.collReqs++
+		if k == w.pageFail {
+			return 500, `{"errors":["verif: injected failure"]}`
+		}
 		// all collections share one timestamp, so that every paging mode is exercised
 		limit, _ := strconv.Atoi(req.Form.Get("limit"))
 		type item struct {
@@ -806,6 +837,9 @@ func (w *verifC06World) serve(req *http.Request) (int, string) {
 				if i%2 == 1 {
 					m = ". " + verifC06Bar + " 0:3:bar\n"
 				}
+				if i == w.badColl {
+					m = ". x\n" // fewer than 3 tokens: SizedDigests, hence addCollection, fails
+				}
 				items = append(items, item{uuid, ts, "fa7aeb5140e2848d39b416daeef4ffc5+45", m})
 			}
 		}
@@ -832,7 +866,8 @@ func verifC06RunOnce(flags string, nsvc, ncoll, pageSize, failAt int, kind, tmp 
 }
 
 func verifC06RunWorld(flags string, nsvc, ncoll, pageSize, failAt int, kind, tmp, gateHost string, sched *verifC06Sched) verifC06RunOut {
-	w := &verifC06World{nsvc: nsvc, ncoll: ncoll, failAt: failAt, failKind: kind, gateHost: gateHost, sched: sched}
+	w := &verifC06World{nsvc: nsvc, ncoll: ncoll, failAt: failAt, failKind: kind, gateHost: gateHost, sched: sched,
+		badColl: -1, pageFail: -1}
 	verifC06Ctl = sched
 	defer func() { verifC06Ctl = nil }()
 	logger := logrus.New()
@@ -943,6 +978,90 @@ func verifC06Run(f []string, tmp string) string {
 	return strings.Join(out, ",")
 }
 
+func verifC06GCS(f []string) string {
+	if len(f) != 11 {
+		return "bad-op"
+	}
+	num := func(s string) (int, bool) {
+		if s == "-" {
+			return -1, true
+		}
+		n, err := strconv.Atoi(s)
+		return n, err == nil && n >= 0
+	}
+	var v [10]int
+	for i := 1; i <= 10; i++ {
+		n, ok := num(f[i])
+		if !ok {
+			return "bad-op"
+		}
+		v[i-1] = n
+	}
+	nsvc, ncoll, pageSize, bufs, idxFail, badColl, pageFail, other, hold, pause := v[0], v[1], v[2], v[3], v[4], v[5], v[6], v[7], v[8], v[9]
+	if nsvc < 1 || bufs < 1 || idxFail >= nsvc {
+		return "bad-op"
+	}
+	sched := &verifC06Sched{counts: map[int]int{}, other: other, holdAt: hold, pauseAt: pause, advance: 6,
+		record: true, lit: map[int64]int{}, paths: map[int64][]int{}}
+	w := &verifC06World{nsvc: nsvc, ncoll: ncoll, failAt: -1, sched: sched, badColl: badColl, pageFail: -1}
+	logger := logrus.New()
+	logger.Out = ioutil.Discard
+	client := &arvados.Client{APIHost: "zzzzz.arvadosapi.com", AuthToken: "xyzzy", Client: &http.Client{Transport: w}}
+	bal := &Balancer{Logger: logger, Metrics: newMetrics(prometheus.NewRegistry())}
+	if err := bal.DiscoverKeepServices(client); err != nil {
+		return "setup-failed"
+	}
+	for _, srv := range bal.KeepServices {
+		if err := srv.discoverMounts(client); err != nil {
+			return "setup-failed"
+		}
+	}
+	bal.cleanupMounts()
+	if idxFail >= 0 {
+		w.gateHost = w.host(idxFail)
+	}
+	w.mtx.Lock()
+	w.pageFail = pageFail
+	w.collReqs = 0
+	w.mtx.Unlock()
+	ctx, cancel := context.WithTimeout(context.Background(), 30*time.Second)
+	defer cancel()
+	verifC06Ctl = sched
+	err := bal.GetCurrentState(ctx, client, pageSize, bufs)
+	verifC06Ctl = nil
+	if ctx.Err() != nil {
+		return "timeout"
+	}
+	if !sched.seenPoints {
+		return "not-instrumented"
+	}
+	render := func(p []int) string {
+		parts := make([]string, len(p))
+		for i, n := range p {
+			parts[i] = strconv.Itoa(n)
+		}
+		return strings.Join(parts, ".")
+	}
+	var ws []string
+	pp, sp := "-", "-"
+	for _, id := range sched.order {
+		switch sched.lit[id] {
+		case 0:
+			ws = append(ws, render(sched.paths[id]))
+		case 1:
+			pp = render(sched.paths[id])
+		case 2:
+			sp = render(sched.paths[id])
+		}
+	}
+	sort.Strings(ws)
+	res := 0
+	if err != nil {
+		res = 1
+	}
+	return fmt.Sprintf("w=%s|p=%s|s=%s|res=%d|creq=%d", strings.Join(ws, ";"), pp, sp, res, w.collReqs)
+}
+
 func verifC06Case(line, tmp string) (out string) {
 	defer func() {
 		if r := recover(); r != nil {
@@ -955,6 +1074,8 @@ func verifC06Case(line, tmp string) (out string) {
 		return verifC06Page(f)
 	case "run":
 		return verifC06Run(f, tmp)
+	case "gcs":
+		return verifC06GCS(f)
 	}
 	return "bad-op"
 }
